@@ -11,6 +11,7 @@ from ..core import Family
 from ..icheck import eval_inter
 from .C02 import base_features
 
+EXTRA_HASHSEEDS = (1,)       # thorough tier re-runs the quick space under a second pinned hash seed
 LEVEL = 'exploration'
 TECHNIQUE = 'bounded-exhaustive enumeration of catalogue body pairs x relative placements x poses on the real code vs exact vertex enumeration'
 
@@ -107,7 +108,119 @@ class BodyPairs(Family):
         return not cell.endswith('|None')
 
 
+# --------------------------------------------------------------------------- generic irrational poses
+
+import math as _math
+from Geometry3D import intersection as _inter, Point as _Point, ConvexPolygon as _CPG, ConvexPolyhedron as _CPH
+from .. import fgeom
+from ..core import Viol as _Viol
+
+ROTS = [((1, 1, 1), 1.0), ((0, 0, 1), 0.7), ((1, 2, -1), 2.2), ((3, -1, 2), 0.35), ((1, 0, 0), 1.234), ((-2, 1, 4), 2.9),
+        ((0, 1, 0), 0.05), ((1, -1, 0), _math.pi / 3), ((2, 3, 6), _math.sqrt(2)), ((0, 0, 1), _math.pi / 4)]
+SHIFTS = [(0.0, 0.0, 0.0), (0.1234, -0.377, 0.25), (0.6180339887, 0.3141592653, -0.2718281828), (1.05, 0.55, 0.45), (-0.4142135623, 1.0, 0.7320508075),
+          (1.5, 0.25, -0.125), (0.3333333333, 0.6666666666, 1.1), (2.2360679775, -1.0, 0.1)]
+GBODIES = ['tetrahedron', 'box', 'pyramid', 'prism', 'triangle', 'square', 'pentagon']
+
+
+def lib_from_float(body, fverts):
+    V = body[1]
+    P = [_Point(*p) for p in fverts]
+    if body[0] == 'ConvexPolygon':
+        return _CPG(tuple(P))
+    return _CPH(tuple(_CPG(tuple(P[i] for i in on)) for n, d, on in X.hull_facets(V)))
+
+
+def eval_generic(fam, scene):
+    b1, b2, ri, si = scene
+    K1, K2 = A.body(b1), A.body(b2)
+    R = fgeom.rot(*ROTS[int(ri)])
+    t = SHIFTS[int(si)]
+    c2 = X.interior_point(K2)
+    c2f = tuple(float(c) for c in c2)
+    # rotate K2 about its own centre, then shift
+    f2 = [tuple(a + b for a, b in zip(fgeom.fapply(R, (0.0, 0.0, 0.0), fgeom.fsub(tuple(float(c) for c in v), c2f)), tuple(c2f[i] + t[i] for i in range(3))))
+          for v in K2[1]]
+    f1 = [tuple(float(c) for c in v) for v in K1[1]]
+    scale = 4.0
+    consA, consB = fgeom.body_constraints(K1, f1), fgeom.body_constraints(K2, f2)
+    verts, why = fgeom.generic_intersection(consA, consB, scale)
+    if why:
+        return 'skip:' + why, []
+    hq = [c for p in f1 + f2 + verts for c in p]
+    for n, d, e in consA + consB:
+        hq += list(n) + [d]
+    if not fgeom.hash_band_ok(hq):
+        return 'skip:hash-boundary', []
+    dim = (2 if K1[0] == 'ConvexPolygon' else 3) + (2 if K2[0] == 'ConvexPolygon' else 3) - 3
+    if not verts:
+        kind = 'None'
+    else:
+        kind = {1: 'Segment', 2: 'ConvexPolygon', 3: 'ConvexPolyhedron'}[dim]
+        need = {1: 2, 2: 3, 3: 4}[dim]
+        if (dim == 1 and len(verts) != 2) or len(verts) < need:
+            return 'skip:degenerate-generic', []
+    cell = '%s,%s|generic|%s' % (K1[0], K2[0], kind)
+    viols = []
+    for form in ('fn', 'fn-swapped'):
+        la = lib.to_lib(K1)
+        lb = lib.construct(K2[0], lambda: lib_from_float(K2, f2))
+        r = lib.call(_inter, la, lb) if form == 'fn' else lib.call(_inter, lb, la)
+        why = None
+        if isinstance(r, lib.Raised):
+            why = 'raises:' + r.cls
+        elif lib.tname(r) != kind:
+            why = 'wrong-kind:%s/%s' % (lib.tname(r), kind)
+        elif kind != 'None':
+            if kind == 'Segment':
+                pts = [lib._c(r.start_point), lib._c(r.end_point)]
+            elif kind == 'ConvexPolygon':
+                pts = [lib._c(p) for p in r.points]
+            else:
+                pts = [lib._c(p) for p in r.point_set]
+            if not lib.match_points(pts, verts, 1e-8):
+                why = 'wrong-value'
+        if why:
+            viols.append(_Viol('C03|generic|%s|%s,%s|%s|%s' % (form, K1[0], K2[0], kind, why), core.enc(('generic',) + tuple(scene)),
+                               [kind, [list(v) for v in verts]], lib.describe(r),
+                               'generic pose: intersection(%s, %s rotated by %r about its centre and shifted by %r)' % (b1, b2, ROTS[int(ri)], t)))
+    return cell, viols
+
+
+class Generic(Family):
+    scene_timeout = 300.0
+
+    def __init__(self, bodies, rots, shifts):
+        self.name = 'generic'
+        self.sc = [(a, b, r, s_) for a in bodies for b in bodies for r in rots for s_ in shifts]
+        self.total = len(self.sc)
+        self._shards = [(i, min(i + 12, self.total)) for i in range(0, self.total, 12)]
+
+    def shards(self):
+        return self._shards
+
+    def scenes(self, shard):
+        return iter(self.sc[shard[0]:shard[1]])
+
+    def enc_scene(self, s):
+        return core.enc(('generic',) + tuple(s))
+
+    def eval(self, s):
+        return eval_generic(self.name, s)
+
+    def nontrivial(self, cell):
+        return not cell.endswith('|None')
+
+
 def families(tier):
+    fams = _families(tier)
+    if tier == 'quick':
+        fams.append(Generic(['tetrahedron', 'box', 'triangle', 'square'], range(4), range(4)))
+    else:
+        fams.append(Generic(GBODIES, range(len(ROTS)), range(len(SHIFTS))))
+    return fams
+
+
+def _families(tier):
     fams = []
     if tier == 'quick':
         bodies = A.QUICK_BODIES
@@ -154,5 +267,8 @@ def run(tier, seed):
 
 
 def replay(family, scene):
-    a, b = core.dec(scene)
+    sc = core.dec(scene)
+    if sc[0] == 'generic':
+        return eval_generic(family, sc[1:])[1]
+    a, b = sc
     return eval_inter('C03', family, a, b, forms=('fn',), measures=True)[1]
